@@ -186,4 +186,55 @@ def limitOf (t : List (String × Nat)) (f : String) : Nat :=
 
 end RuleTable
 
+/-! ### what the file format itself demands of single values (for the tie `source_deser_*`)
+
+Typed from the UFO 3 `fontinfo.plist` chapter and the conventions chapter (identifiers, colours, guidelines),
+independently of norad's types: which texts / numbers / shapes a reader has to accept.  Member names are the
+snake-case forms of the attribute names, as in `RuleTable`. -/
+namespace DeserRuleTable
+
+def styleNames : List String := ["regular", "italic", "bold", "bold italic"]
+def woffDirections : List String := ["ltr", "rtl"]
+/-- the WOFF records that carry a `dir` attribute -/
+def woffDirRecords : List String :=
+  ["WoffMetadataVendor", "WoffMetadataCredit", "WoffMetadataTextRecord", "WoffMetadataLicensee",
+   "WoffMetadataExtensionNameRecord", "WoffMetadataExtensionValueRecord"]
+/-- inclusive ranges of the enumerated integers -/
+def widthClass : Nat × Nat := (1, 9)
+def windowsCharacterSet : Nat × Nat := (1, 20)
+def gaspBehaviorBits : Nat × Nat := (0, 3)
+def familyClassLength : Nat := 2
+def panoseLength : Nat := 10
+/-- attributes that are "bit number lists" -/
+def bitLists : List String :=
+  ["open_type_head_flags", "open_type_os2_selection", "open_type_os2_type", "open_type_os2_unicode_ranges",
+   "open_type_os2_code_page_ranges"]
+/-- attributes that are non-negative integers -/
+def nonNegativeIntegers : List String :=
+  ["open_type_head_lowest_rec_ppem", "open_type_os2_weight_class", "open_type_os2_win_ascent",
+   "open_type_os2_win_descent", "version_minor", "woff_major_version", "woff_minor_version"]
+/-- attributes that are non-negative numbers (integer or float) -/
+def nonNegativeNumbers : List String := ["units_per_em"]
+/-- admissible tests for "non-negative": both accept every x > 0 and refuse every x < 0; they differ on -0.0 and
+    NaN only, about which the statement is silent.  (A test refusing 0 is not admissible.) -/
+def nonNegativeTests : List String := ["sign_positive", "ge_zero"]
+def nameRecordKeys : List String := ["nameID", "platformID", "encodingID", "languageID", "string"]
+def gaspRecordKeys : List String := ["rangeMaxPPEM", "rangeGaspBehavior"]
+/-- identifiers: at most 100 characters, each in U+0020..U+007E -/
+def identMaxLen : Nat := 100
+def identRange : Nat × Nat := (0x20, 0x7E)
+/-- colours: four numbers separated by commas, each in 0..1 -/
+def colorSeparator : Char := ','
+def colorChannels : Nat := 4
+def colorRange : Nat × Nat := (0, 1)
+def guidelineKeys : List String := ["x", "y", "angle", "name", "color", "identifier"]
+def angleRange : Nat × Nat := (0, 360)
+/-- x alone: vertical; y alone: horizontal; x, y and angle: angled; nothing else is a guideline -/
+def guidelineKind (x y angle : Bool) : Nat :=
+  if x && !y && !angle then 0 else if !x && y && !angle then 1 else if x && y && angle then 2 else 3
+
+def rangeList (p : Nat × Nat) : List Nat := List.range' p.1 (p.2 + 1 - p.1)
+
+end DeserRuleTable
+
 end C13
